@@ -14,6 +14,7 @@ package gate
 import (
 	"fmt"
 	"os"
+	"strings"
 
 	"github.com/blevesearch/bleve/v2/index/scorch"
 
@@ -30,6 +31,7 @@ type Spec struct {
 	Occ      int // park at this occurrence of the event after arming (1-based)
 	Steps    int // driver steps the gate stays closed after the step in which it parked
 	Label    string
+	Then     *Spec // after it has opened, the gate is armed once more with this (a thread that is held back twice)
 }
 
 // Choice is one member of the menu: zero, one or two gates.
@@ -101,6 +103,51 @@ func MenuPairs() []Choice {
 			m = append(m, Choice{Gates: []Spec{p, q}, Label: p.Label + " & " + q.Label})
 		}
 	}
+	if thorough() {
+		m = append(m, twice()...)
+	}
+	if f := os.Getenv("VERIF_GATE_FILTER"); f != "" { // debugging aid: restrict the menu
+		var out []Choice
+		for _, c := range m {
+			if strings.Contains(c.Label, f) {
+				out = append(out, c)
+			}
+		}
+		return out
+	}
+	return m
+}
+
+// twice (thorough tier): a background thread that is held back twice. The merger is first parked before planning from the
+// start for two or three driver steps (so that files accumulate un-merged), then again before introducing its
+// 1st / 2nd merge; the persister is first parked after its first round for two steps (so that segments pile
+// up unpersisted), then again before its purge / after its next round. Each is paired with every single
+// gate (closed for one step) of the other thread.
+func twice() []Choice {
+	var m []Choice
+	mk := func(first Spec, then Spec, others []Spec) {
+		for _, o := range others {
+			if o.Steps != 1 {
+				continue
+			}
+			f := first
+			t := then
+			f.Then = &t
+			f.Label = first.Label + " then " + then.Label
+			m = append(m, Choice{Gates: []Spec{o, f}, Label: o.Label + " & " + f.Label})
+		}
+	}
+	for occ := 1; occ <= 3; occ++ {
+		for st := 2; st <= 3; st++ {
+			mk(Spec{Kind: scorch.EventKindPreMergeCheck, Occ: 1, Steps: st, Label: fmt.Sprintf("merger-before-planning@0#1+%d", st)},
+				Spec{Kind: scorch.EventKindMergeTaskIntroductionStart, Occ: occ, Steps: 1, Label: fmt.Sprintf("merger-before-introducing-merge#%d+1", occ)},
+				singles(persisterKinds, 1))
+		}
+	}
+	mk(Spec{Kind: scorch.EventKindPersisterProgress, Occ: 1, Steps: 2, Label: "persister-after-round@0#1+2"},
+		Spec{Kind: scorch.EventKindPurgerCheck, Occ: 1, Steps: 1, Label: "persister-before-purge#1+1"}, singles(mergerKinds, 1))
+	mk(Spec{Kind: scorch.EventKindPersisterProgress, Occ: 1, Steps: 2, Label: "persister-after-round@0#1+2"},
+		Spec{Kind: scorch.EventKindPersisterProgress, Occ: 1, Steps: 1, Label: "persister-after-round#1+1"}, singles(mergerKinds, 1))
 	return m
 }
 
@@ -111,6 +158,7 @@ type G struct {
 	Parked  bool // a background thread is parked at the gate right now
 	Was     bool // it parked at some moment
 	left    int
+	everWas bool
 	opened  bool
 	release chan int
 }
@@ -120,14 +168,16 @@ type Set struct {
 	gs       []*G
 	stepsRun int
 	disarmed bool
+	final    bool // Open was called: nothing parks any more
 }
 
 var cur *Set
+var trace = os.Getenv("VERIF_GATE_TRACE") != ""
 
 func init() {
 	scorch.RegistryEventCallbacks[Name] = func(e scorch.Event) bool {
 		s := cur
-		if s == nil || s.disarmed {
+		if s == nil || s.disarmed || s.final {
 			return true
 		}
 		for _, g := range s.gs {
@@ -135,11 +185,20 @@ func init() {
 				continue
 			}
 			g.seen++
+			if trace {
+				fmt.Fprintf(os.Stderr, "GATE %s sees its event, occurrence %d (driver steps run: %d)\n", g.Label, g.seen, s.stepsRun)
+			}
 			if g.seen == g.Occ {
 				g.Was, g.Parked = true, true
 				g.left = g.Steps
+				if trace {
+					fmt.Fprintf(os.Stderr, "GATE %s parks (driver steps run: %d)\n", g.Label, s.stepsRun)
+				}
 				vrt.Recv(g.release)
 				g.Parked = false
+				if trace {
+					fmt.Fprintf(os.Stderr, "GATE %s goes on (driver steps run: %d)\n", g.Label, s.stepsRun)
+				}
 			}
 		}
 		return true
@@ -185,6 +244,14 @@ func (g *G) open() {
 	}
 	g.opened = true
 	vrt.Send(g.release, 1)
+	if g.Then != nil && g.Was {
+		// armed once more: the thread will be held back a second time
+		t := *g.Then
+		g.Spec = t
+		g.ArmAfter = 0
+		g.seen, g.Was, g.opened, g.everWas = 0, false, false, true
+		g.release = make(chan int, 1)
+	}
 }
 
 // Open opens every gate for good (harmless when nothing is or ever gets parked).
@@ -192,7 +259,9 @@ func (s *Set) Open() {
 	if s == nil {
 		return
 	}
+	s.final = true
 	for _, g := range s.gs {
+		g.Then = nil
 		g.open()
 	}
 }
@@ -202,7 +271,7 @@ func (s *Set) Was() int {
 	n := 0
 	if s != nil {
 		for _, g := range s.gs {
-			if g.Was {
+			if g.Was || g.everWas {
 				n++
 			}
 		}
